@@ -30,7 +30,7 @@ def main():
         env = "CARGO_NET_OFFLINE=true CARGO_TARGET_DIR=/root/scratch/verify_target"
         rc, out = sh("%s cargo test --offline --test seed_demo 2>&1 | tail -15" % env, cwd=wt)
         meta["demo_passes_without_change"] = "test result: ok" in out
-        rc, out = sh("git apply --3way %s || git apply %s" % (patch, patch), cwd=wt)
+        rc, out = sh("git apply %s || git apply --3way %s" % (patch, patch), cwd=wt)
         meta["patch_applies"] = rc == 0
         rc, out = sh("%s cargo test --offline --lib 2>&1 | grep 'test result'" % env, cwd=wt)
         meta["pinned_tests_with_change"] = out.strip()
@@ -41,7 +41,7 @@ def main():
     # the checks against the changed /repo
     rc, out = sh("git -C /repo status --short")
     assert out.strip() == "", "/repo is not clean: " + out
-    rc, out = sh("git -C /repo apply --3way %s || git -C /repo apply %s" % (patch, patch))
+    rc, out = sh("git -C /repo apply %s" % patch)
     assert rc == 0, out
     results = {}
     try:
@@ -58,7 +58,7 @@ def main():
                     except OSError:
                         pass
     finally:
-        sh("git -C /repo checkout -- . && git -C /repo clean -fdq -e target")
+        sh("git -C /repo reset -q --hard HEAD")
     meta["check_results"] = results
     meta["detected"] = any(r["exit"] == 1 for r in results.values())
     # restore evidence of the unchanged tree
